@@ -7,8 +7,11 @@ import (
 	"go/token"
 	"go/types"
 	"regexp"
+	"sort"
+	"strconv"
 	"strings"
 
+	rast "github.com/open-policy-agent/opa/ast"
 	"golang.org/x/tools/go/ssa"
 )
 
@@ -22,9 +25,14 @@ func init() {
 		c.R.Rule("C01.R10", "compact IRIs of the formula are resolved in a context built from the defaults and this profile only (shared with C02.P9 / C15.O3)", 1)
 		prefixResolution(c, "C01.R10")
 		c.Borrow("C02", "C02.P8", "C01.R11", "generated rule names are unique within a policy: the fresh-name counter is never reset while a compilation may be running (two rules with one name are silently unioned, so a constraint on one property sees another's values)", 1, nil)
+		everyTypeIndexed(c, "C01.R15")
+		c01ExactValueText(c)
+		c01IndependentKeys(c)
 		c.Borrow("C07", "C07.H1", "C01.R12", "no quantified-variable name is also a local name fixed by a template (the two would be unified, and the nodes under that variable count as satisfying)", 3, nil)
 	}
 	extras["C02"] = func(c *Ctx) {
+		exactExpansion(c, "C02.P12")
+		c02ActionsKeepOperands(c)
 		c.Borrow("C05", "C05.N1", "C02.P10", "every node of the document is a node of the index the paths are evaluated on: the input is flattened unconditionally (embedded and split node objects are hoisted and merged) before it is indexed", 5, nil)
 	}
 	extras["C03"] = func(c *Ctx) {
@@ -43,6 +51,7 @@ func init() {
 		c.Borrow("C18", "C18.W5", "C05.N6", "the command-line front end hands the library the data file's bytes as read (no re-encoding, line splitting or trimming that depends on how the document is laid out)", 1, nil)
 		c05MessageValues(c)
 		c05PositionalAccess(c)
+		everyTypeIndexed(c, "C05.N10")
 		c.Borrow("C02", "C02.P5", "C05.N7", "values are compared and counted as sets: only uniqueValues reads them as an array (an array keeps the document's value order and duplicates, which differ between serialisations)", 1, func(o Obligation) bool {
 			return o.Construct == "array-consumers"
 		})
@@ -50,16 +59,21 @@ func init() {
 	extras["C06"] = func(c *Ctx) {
 		c.Borrow("C09", "C09.S2", "C06.D7", "no package-level state is written in reach of the validation entry points (a shared scratch buffer included)", 1, nil)
 		c.Borrow("C10", "C10.G6", "C06.D5", "no package-level variable holds a mutable object of a dependency (a shared buffer or cache makes the output depend on what other calls are doing)", 1, nil)
+		c.R.Rule("C06.D8", "no compilation writes into the shared default prefix table: a later call would resolve prefixes with what an earlier profile declared", 1)
+		prefixResolution(c, "C06.D8")
 		c.Borrow("C18", "C18.W1", "C06.D6", "the command-line front end truncates the output file it writes (a re-run over a longer earlier report must yield the same bytes as a first run)", 1, nil)
 	}
 	extras["C07"] = func(c *Ctx) {
 		c12DegenerateProfiles(c, "", "C07.H11")
 		allLevelRules(c, "C07.H12")
 		c.Borrow("C16", "C16.X1", "C07.H13", "the path parser is called without options: no expression budget or alternative entry rule makes a well-formed path fail", 1, nil)
+		c16RuntimeConstants(c, "", "C07.H14", "C07.H16")
+		c07AssertionsTotal(c)
 	}
 	extras["C08"] = func(c *Ctx) {
 		c08CompileErrors(c)
 		c08PrintCallsKept(c)
+		c08EmbeddedCodeWhole(c)
 	}
 	extras["C09"] = func(c *Ctx) {
 		c.Borrow("C06", "C06.D1", "C09.S4", "no map iteration order reaches the report: repeated validations through one compiled profile give the same report as a fresh one", 1, nil)
@@ -67,18 +81,26 @@ func init() {
 	extras["C18"] = func(c *Ctx) {
 		c18LibraryIsSilent(c)
 		c18ArgumentCounts(c)
+		c.R.Rule("C18.W10", "what the library returns for two texts does not depend on the profiles compiled earlier in the process (a fresh command-line process has compiled none): the shared default prefix table is copied, never written", 1)
+		prefixResolution(c, "C18.W10")
+		c.Borrow("C06", "C06.D1", "C18.W11", "no map iteration order reaches what the commands print: the normalised input and the policy are the same text on every run", 1, nil)
 	}
 	extras["C16"] = func(c *Ctx) {
 		c16Backtracking(c)
-		c16RuntimeConstants(c)
+		c16RuntimeConstants(c, "C16.X11", "C16.X12", "C16.X13")
 	}
 	extras["C13"] = func(c *Ctx) {
 		c13VerbatimNames(c)
 		c.Borrow("C18", "C18.W2", "C13.Q7", "the command-line front end prints the report as an operand, never as a format string (a % in a name or message would be interpreted)", 3, nil)
+		c.Borrow("C03", "C03.L5", "C13.Q9", "the profile name in the report header is the profile's name quoted by the escaping helper and by nothing else", 1, func(o Obligation) bool {
+			return o.Construct == "profile-name-source"
+		})
+		c13DefaultOnlyForEmpty(c)
 		c.R.Rule("C13.Q8", "placeholders are resolved with this profile's prefixes only (shared with C02.P9 / C15.O3)", 1)
 		prefixResolution(c, "C13.Q8")
 	}
 	extras["C14"] = func(c *Ctx) {
+		exactNumbers(c, "C14.K8")
 		c.Borrow("C12", "C12.J1", "C14.K7", "the report builder leaves the nodes of a result as the policy produced them: it names them, it does not remove or rewrite location nodes", 3, nil)
 	}
 	extras["C12"] = func(c *Ctx) {
@@ -87,10 +109,12 @@ func init() {
 		c12DegenerateProfiles(c, "C12.J12", "C12.J13")
 		c12NamesOfEnumValues(c)
 		c12ValidationFoundUnderItsName(c)
+		c.Borrow("C18", "C18.W2", "C12.J17", "the report is printed as an operand, never as a format string: a % in a message would turn the JSON into something else", 3, nil)
 		c.Borrow("C18", "C18.W1", "C12.J14", "a report written to a file is the whole content of that file: the command-line front end truncates what the file held (a shorter report over a longer one leaves a tail that makes the file invalid JSON)", 2, nil)
 	}
 	extras["C15"] = func(c *Ctx) {
 		scalarTextGuard(c, "C15.O9")
+		c.Borrow("C07", "C07.H6", "C15.O12", "every prefix and name the path grammar admits is accepted by the IRI expander: renaming a prefix to another admissible name does not turn a profile into an error", 2, nil)
 		yamlAliasesRejected(c, "C15.O10")
 		c.Borrow("C01", "C01.R4", "C15.O11", "no operand list of the generator is extended in place while another iteration still uses it (which operand survives would depend on how operands sort, that is on how prefixes and variables are spelled)", 1, func(o Obligation) bool {
 			return strings.Contains(o.Construct, "#append:") || o.Construct == "shared-append-census"
@@ -1787,13 +1811,15 @@ func derefType(t types.Type) types.Type {
 // 1 byte) for an invalid byte; a test of the rune alone takes a well-formed U+FFFD in the string for the end of input, and
 // the anchor `!.` then accepts a string with a tail.  X12: the interpreter has no budget of its own: the only constant
 // ever stored into the expression budget is "unlimited" (math.MaxUint64), so no sentence is rejected for its size.
-func c16RuntimeConstants(c *Ctx) {
+func c16RuntimeConstants(c *Ctx, x11, x12, x13 string) {
 	r, p := c.R, c.P
-	r.Rule("C16.X11", "the parser runtime recognises end of input by rune and width together", 2)
-	r.Rule("C16.X12", "the parser runtime has no expression budget unless the caller sets one", 1)
+	if x11 != "" {
+		r.Rule(x11, "the parser runtime recognises end of input by rune and width together", 2)
+	}
+	r.Rule(x12, "the parser runtime has no expression budget unless the caller sets one", 1)
 	pk := p.Pkg("internal/parser/path")
 	if pk == nil {
-		r.Unknown("C16.X11", "runtime", "", "package internal/parser/path not found")
+		r.Unknown(x11, "runtime", "", "package internal/parser/path not found")
 		return
 	}
 	info := pk.TypesInfo
@@ -1861,7 +1887,10 @@ func c16RuntimeConstants(c *Ctx) {
 					return true
 				})
 				key := relOf(pk) + "." + enclosingFuncName(pk, x.Pos()) + "#rune-error-test"
-				r.Check(widthTested, "C16.X11", key, p.Pos(x.Pos()), "the rune is compared together with the width the decoder reported", "a rune is compared with utf8.RuneError without the decoder's width: U+FFFD written in the string is taken for the end of input (or for an invalid byte), so `core.name \uFFFD / anything` is accepted as `core.name`")
+				if x11 == "" {
+					return true
+				}
+				r.Check(widthTested, x11, key, p.Pos(x.Pos()), "the rune is compared together with the width the decoder reported", "a rune is compared with utf8.RuneError without the decoder's width: U+FFFD written in the string is taken for the end of input (or for an invalid byte), so `core.name \uFFFD / anything` is accepted as `core.name`")
 			case *ast.AssignStmt:
 				for i, l := range x.Lhs {
 					sel, ok := ast.Unparen(l).(*ast.SelectorExpr)
@@ -1873,23 +1902,992 @@ func c16RuntimeConstants(c *Ctx) {
 						continue // a value handed in by the caller (the MaxExpressions option)
 					}
 					n12++
-					r.Check(tv.Value.ExactString() == "18446744073709551615", "C16.X12", relOf(pk)+"."+enclosingFuncName(pk, x.Pos())+"#budget", p.Pos(x.Pos()), "the default budget is unlimited", "the expression budget is set to the constant "+tv.Value.ExactString()+": a path that is a sentence of the grammar is rejected once it is long or deeply parenthesised enough")
+					r.Check(tv.Value.ExactString() == "18446744073709551615", x12, relOf(pk)+"."+enclosingFuncName(pk, x.Pos())+"#budget", p.Pos(x.Pos()), "the default budget is unlimited", "the expression budget is set to the constant "+tv.Value.ExactString()+": a path that is a sentence of the grammar is rejected once it is long or deeply parenthesised enough")
 				}
 			case *ast.KeyValueExpr:
 				if id, ok := x.Key.(*ast.Ident); ok && id.Name == "maxExprCnt" {
 					if tv, ok := info.Types[x.Value]; ok && tv.Value != nil {
 						n12++
-						r.Check(tv.Value.ExactString() == "18446744073709551615" || tv.Value.ExactString() == "0", "C16.X12", relOf(pk)+"."+enclosingFuncName(pk, x.Pos())+"#budget-literal", p.Pos(x.Pos()), "no budget of its own", "the expression budget is initialised to the constant "+tv.Value.ExactString())
+						r.Check(tv.Value.ExactString() == "18446744073709551615" || tv.Value.ExactString() == "0", x12, relOf(pk)+"."+enclosingFuncName(pk, x.Pos())+"#budget-literal", p.Pos(x.Pos()), "no budget of its own", "the expression budget is initialised to the constant "+tv.Value.ExactString())
 					}
 				}
 			}
 			return true
 		})
 	}
-	if n11 == 0 {
-		r.Unknown("C16.X11", "rune-error-tests", "", "no comparison with utf8.RuneError found in the parser runtime")
+	// X13: any other limit.  An explicit panic of the runtime that sits under an ordering comparison of integers (a depth,
+	// a length, a count against a bound) is a budget: the only one the runtime has is the expression budget of X12
+	r.Rule(x13, "the parser runtime gives up on nothing but the expression budget: no explicit panic sits under another ordering comparison of a length, depth or count", 1)
+	n13 := 0
+	for _, f := range pk.Syntax {
+		var stack []ast.Node
+		ast.Inspect(f, func(nd ast.Node) bool {
+			if nd == nil {
+				stack = stack[:len(stack)-1]
+				return true
+			}
+			stack = append(stack, nd)
+			call, ok := nd.(*ast.CallExpr)
+			if !ok {
+				return true
+			}
+			id, ok := call.Fun.(*ast.Ident)
+			if !ok || id.Name != "panic" {
+				return true
+			}
+			if _, isBuiltin := info.Uses[id].(*types.Builtin); !isBuiltin {
+				return true
+			}
+			n13++
+			limit := ""
+			for i := len(stack) - 2; i >= 0 && limit == ""; i-- {
+				var cond ast.Expr
+				switch st := stack[i].(type) {
+				case *ast.IfStmt:
+					cond = st.Cond
+				case *ast.FuncDecl, *ast.FuncLit:
+					i = -1
+					continue
+				}
+				if cond == nil {
+					continue
+				}
+				ast.Inspect(cond, func(q ast.Node) bool {
+					be, ok := q.(*ast.BinaryExpr)
+					if !ok {
+						return true
+					}
+					switch be.Op {
+					case token.LSS, token.GTR, token.LEQ, token.GEQ:
+					default:
+						return true
+					}
+					if tv, ok := info.Types[be.X]; !ok || tv.Type == nil {
+						return true
+					} else if b, ok := tv.Type.Underlying().(*types.Basic); !ok || b.Info()&types.IsInteger == 0 {
+						return true
+					}
+					budget := false
+					for _, side := range []ast.Expr{be.X, be.Y} {
+						if sel, ok := ast.Unparen(side).(*ast.SelectorExpr); ok && sel.Sel.Name == "maxExprCnt" {
+							budget = true
+						}
+					}
+					if !budget && limit == "" {
+						limit = types.ExprString(be)
+					}
+					return true
+				})
+			}
+			key := relOf(pk) + "." + enclosingFuncName(pk, call.Pos()) + "#panic"
+			if limit != "" {
+				key += ":" + limit
+			}
+			r.Check(limit == "", x13, key, p.Pos(call.Pos()), "not a limit (the expression budget of X12, or a malformed grammar table)", "the runtime panics when "+limit+": a limit of its own, so a path that is a sentence of the grammar is rejected once it is nested or long enough")
+			return true
+		})
+	}
+	if n13 == 0 {
+		r.Unknown(x13, "panics", "", "no explicit panic found in the parser runtime")
+	}
+	if n11 == 0 && x11 != "" {
+		r.Unknown(x11, "rune-error-tests", "", "no comparison with utf8.RuneError found in the parser runtime")
 	}
 	if n12 == 0 {
-		r.Unknown("C16.X12", "budget", "", "no constant store into the expression budget found in the parser runtime")
+		r.Unknown(x12, "budget", "", "no constant store into the expression budget found in the parser runtime")
+	}
+}
+
+// c01ExactValueText (R13): the set constraints (in, containsAll, containsSome) compare a value of the graph with the
+// listed values through a conversion function of the embedded library that has one clause per kind of value (as_string).
+// A clause that rounds its argument (format_int, floor, ceil, round) makes different values compare equal and equal
+// values compare different: with format_int, 1.5 is "1", so `in: [1]` is satisfied by 1.5 and `in: [1.5]` by nothing.
+// A clause that first establishes that the argument is integral (x == floor(x) and the like) is exact.
+func c01ExactValueText(c *Ctx) {
+	r := c.R
+	r.Rule("C01.R13", "the conversion the set constraints compare values through does not round numbers (a value is in a list exactly when it equals a listed value)", 1)
+	rp, err := loadPreamble(c.P)
+	if err != nil {
+		r.Unknown("C01.R13", "preamble", "", err.Error())
+		return
+	}
+	rounding := map[string]bool{"format_int": true, "floor": true, "ceil": true, "round": true}
+	conversions, bad := 0, 0
+	for _, rl := range rp.Module.Rules {
+		if len(rl.Head.Args) != 1 || rl.Head.Value == nil {
+			continue
+		}
+		var guards []string
+		integral := false
+		for _, e := range rl.Body {
+			if !e.IsCall() {
+				continue
+			}
+			n := e.Operator().String()
+			if strings.HasPrefix(n, "is_") {
+				guards = append(guards, n)
+			}
+			if n == "eq" || n == "equal" {
+				// x == floor(x): the argument is integral in this clause
+				for _, o := range e.Operands() {
+					if cn, _ := callName(o); cn == "floor" || cn == "ceil" || cn == "round" {
+						integral = true
+					}
+				}
+			}
+		}
+		if len(guards) == 0 {
+			continue
+		}
+		sort.Strings(guards)
+		conversions++
+		if integral {
+			continue
+		}
+		seenHere := map[string]bool{}
+		rast.WalkTerms(rl.Head.Value, func(t *rast.Term) bool {
+			if n, _ := callName(t); rounding[n] {
+				k := string(rl.Head.Name) + "[" + strings.Join(guards, ",") + "]#" + n
+				if !seenHere[k] {
+					seenHere[k] = true
+					bad++
+					r.Bad("C01.R13", k, fmt.Sprintf("preamble line %d", rl.Location.Row-1), n+" rounds: every number between two integers is compared as the lower one, so a set constraint is satisfied by values that are not listed and never by a listed non-integer")
+				}
+			}
+			return false
+		})
+	}
+	if conversions == 0 {
+		r.Unknown("C01.R13", "conversions", "", "no conversion function with one clause per kind of value was found in the embedded library")
+		return
+	}
+	if bad == 0 {
+		r.OK("C01.R13", "census", "", fmt.Sprintf("%d conversion clauses: none rounds its argument", conversions))
+	}
+}
+
+// c07AssertionsTotal (H15): the translator dispatches on the dynamic type of values that functions of the profile model
+// return (`switch x := or.Negate().(type) { case profile.AndRule: ...; default: panic(...) }`, or a plain x.(T)).  Where
+// the alternative is a panic, every value the called function can return must have one of the handled types; otherwise
+// a well-formed profile that reaches the call stops the translation.  Decided on the SSA form of the callee: the concrete
+// type of each returned interface value.
+func c07AssertionsTotal(c *Ctx) {
+	r, p := c.R, c.P
+	r.Rule("C07.H15", "a type switch or assertion of the translator that panics otherwise handles every type the called model function returns", 1)
+	pk := p.Pkg("internal/generator")
+	if pk == nil {
+		r.Unknown("C07.H15", "package", "", "internal/generator not found")
+		return
+	}
+	info := pk.TypesInfo
+	// concrete types a module function returns as its (single) interface result
+	returned := func(fn *types.Func) (ts []types.Type, complete bool) {
+		sf := p.SSA.FuncValue(fn)
+		if sf == nil || len(sf.Blocks) == 0 {
+			return nil, false
+		}
+		complete = true
+		seen := map[ssa.Value]bool{}
+		var add func(v ssa.Value)
+		add = func(v ssa.Value) {
+			if seen[v] {
+				return
+			}
+			seen[v] = true
+			switch x := v.(type) {
+			case *ssa.MakeInterface:
+				ts = append(ts, x.X.Type())
+			case *ssa.Phi:
+				for _, e := range x.Edges {
+					add(e)
+				}
+			case *ssa.Const:
+				// nil interface: matches no case
+				if x.Value == nil {
+					ts = append(ts, types.Typ[types.UntypedNil])
+				}
+			default:
+				if _, isIface := v.Type().Underlying().(*types.Interface); isIface {
+					complete = false
+				} else {
+					ts = append(ts, v.Type())
+				}
+			}
+		}
+		for _, b := range sf.Blocks {
+			for _, ins := range b.Instrs {
+				if ret, ok := ins.(*ssa.Return); ok && len(ret.Results) >= 1 {
+					add(ret.Results[0])
+				}
+			}
+		}
+		return ts, complete
+	}
+	n := 0
+	for _, f := range pk.Syntax {
+		for _, d := range f.Decls {
+			fd, ok := d.(*ast.FuncDecl)
+			if !ok || fd.Body == nil {
+				continue
+			}
+			// locals assigned once from a call
+			from := map[types.Object]*ast.CallExpr{}
+			count := map[types.Object]int{}
+			ast.Inspect(fd.Body, func(nd ast.Node) bool {
+				if as, ok := nd.(*ast.AssignStmt); ok && len(as.Lhs) == len(as.Rhs) {
+					for i, l := range as.Lhs {
+						if id, ok := l.(*ast.Ident); ok {
+							o := info.Defs[id]
+							if o == nil {
+								o = info.Uses[id]
+							}
+							if o != nil {
+								count[o]++
+								if call, ok := ast.Unparen(as.Rhs[i]).(*ast.CallExpr); ok {
+									from[o] = call
+								}
+							}
+						}
+					}
+				}
+				return true
+			})
+			callOf := func(e ast.Expr) *ast.CallExpr {
+				switch x := ast.Unparen(e).(type) {
+				case *ast.CallExpr:
+					return x
+				case *ast.Ident:
+					if o := info.Uses[x]; o != nil && count[o] == 1 {
+						return from[o]
+					}
+				}
+				return nil
+			}
+			ast.Inspect(fd.Body, func(nd ast.Node) bool {
+				ts, ok := nd.(*ast.TypeSwitchStmt)
+				if !ok {
+					return true
+				}
+				var subject ast.Expr
+				switch a := ts.Assign.(type) {
+				case *ast.AssignStmt:
+					if len(a.Rhs) == 1 {
+						if ta, ok := ast.Unparen(a.Rhs[0]).(*ast.TypeAssertExpr); ok {
+							subject = ta.X
+						}
+					}
+				case *ast.ExprStmt:
+					if ta, ok := ast.Unparen(a.X).(*ast.TypeAssertExpr); ok {
+						subject = ta.X
+					}
+				}
+				call := callOf(subject)
+				if call == nil {
+					return true
+				}
+				fn, _ := calleeOf(info, call).(*types.Func)
+				if fn == nil || fn.Pkg() == nil || !strings.HasPrefix(fn.Pkg().Path(), ModulePath) {
+					return true
+				}
+				var handled []types.Type
+				panics := false
+				for _, cl := range ts.Body.List {
+					cc := cl.(*ast.CaseClause)
+					if cc.List == nil {
+						ast.Inspect(cc, func(q ast.Node) bool {
+							if pc, ok := q.(*ast.CallExpr); ok {
+								if id, ok := pc.Fun.(*ast.Ident); ok && id.Name == "panic" {
+									panics = true
+								}
+							}
+							return true
+						})
+						continue
+					}
+					for _, e := range cc.List {
+						if tv, ok := info.Types[e]; ok && tv.Type != nil {
+							handled = append(handled, tv.Type)
+						}
+					}
+				}
+				if !panics {
+					return true
+				}
+				key := relOf(pk) + "." + fd.Name.Name + "#switch-on:" + funcFullName(fn)
+				rts, complete := returned(fn)
+				if !complete || len(rts) == 0 {
+					// an interface method or a value the callee obtained elsewhere: not decided here
+					r.Analysed["H15_not_decided:"+key] = "the concrete types returned by " + funcFullName(fn) + " are not all visible in its body"
+					return true
+				}
+				n++
+				var missing []string
+				for _, rt := range rts {
+					ok := false
+					for _, h := range handled {
+						if types.Identical(rt, h) {
+							ok = true
+						} else if it, isIface := h.Underlying().(*types.Interface); isIface && types.Implements(rt, it) {
+							ok = true
+						}
+					}
+					if !ok {
+						missing = append(missing, types.TypeString(rt, func(p *types.Package) string { return p.Name() }))
+					}
+				}
+				r.Check(len(missing) == 0, "C07.H15", key, p.Pos(ts.Pos()), "every type the callee returns has a case", funcFullName(fn)+" can return "+strings.Join(missing, ", ")+", which the switch sends to its panicking default: the translation of a well-formed profile that gets here stops with that panic")
+				return true
+			})
+		}
+	}
+	if n == 0 {
+		r.Unknown("C07.H15", "switches", "", "no type switch with a panicking default over the result of a model function was found in the translator")
+	}
+}
+
+// c01IndependentKeys (R14): the constraints written under one property are a conjunction: each keyword that is present
+// adds its own conjunct, whatever other keywords are present (`atLeast` and `atMost` together are the only way to say
+// "between").  Decided on the value the constraint parser returns (E-sym): a function of the profile parser that reads
+// constant keys from one node and returns a list assembled from conditional parts must have, for every key it reads, a
+// part whose condition speaks about that key and about no other key it reads.
+func c01IndependentKeys(c *Ctx) {
+	r, p := c.R, c.P
+	r.Rule("C01.R14", "every constraint keyword of a property adds its conjunct independently of the other keywords", 20)
+	pk := p.Pkg("internal/parser/profile")
+	if pk == nil {
+		r.Unknown("C01.R14", "package", "", "internal/parser/profile not found")
+		return
+	}
+	found := 0
+	for _, f := range pk.Syntax {
+		for _, d := range f.Decls {
+			fd, ok := d.(*ast.FuncDecl)
+			if !ok || fd.Body == nil || fd.Type.Results == nil {
+				continue
+			}
+			keys := map[string]bool{}
+			var best *Sym
+			proto := &symWalker{Inline: func(*types.Func) bool { return false }}
+			proto.OnCall = func(w *symWalker, call *ast.CallExpr, fn types.Object, args []*Sym, result *Sym) {
+				if w.depth != 0 || fn == nil || fn.Name() != "Get" || len(args) != 1 {
+					return
+				}
+				if k, ok := args[0].ConstString(); ok {
+					keys[k] = true
+				}
+			}
+			proto.OnReturn = func(w *symWalker, ret *ast.ReturnStmt, results []*Sym) {
+				if w.depth != 0 || len(results) == 0 || results[0].K != symList {
+					return
+				}
+				if best == nil || len(results[0].Parts) > len(best.Parts) {
+					best = results[0]
+				}
+			}
+			p.SymWalk(pk, fd, proto, nil)
+			if best == nil || len(keys) < 5 {
+				continue
+			}
+			mentions := func(text, k string) bool { return strings.Contains(text, `Get("`+k+`")`) }
+			conditional := 0
+			for _, part := range best.Parts {
+				if part.K == symWhen {
+					conditional++
+				}
+			}
+			if conditional < 5 {
+				continue
+			}
+			found++
+			fkey := relOf(pk) + "." + fd.Name.Name
+			for _, k := range sortedKeys(keys) {
+				own, shared := false, ""
+				for _, part := range best.Parts {
+					if part.K != symWhen || !mentions(part.String(), k) {
+						continue
+					}
+					others := []string{}
+					for o := range keys {
+						if o != k && mentions(part.Name, o) {
+							others = append(others, o)
+						}
+					}
+					if len(others) == 0 && mentions(part.Name, k) {
+						own = true
+					} else if shared == "" {
+						sort.Strings(others)
+						shared = strings.Join(others, ", ")
+					}
+				}
+				switch {
+				case own:
+					r.OK("C01.R14", fkey+"#"+k, p.Pos(fd.Pos()), "adds its conjunct when present, whatever else is present")
+				case shared != "":
+					r.Bad("C01.R14", fkey+"#"+k, p.Pos(fd.Pos()), "the conjunct of `"+k+"` is added under a condition that also depends on "+shared+": written together, one of them is silently dropped from the conjunction")
+				default:
+					r.Bad("C01.R14", fkey+"#"+k, p.Pos(fd.Pos()), "the key `"+k+"` is read but no part of the returned conjunction is added under a condition about it alone: the constraint is dropped, or depends on which other keywords are present")
+				}
+			}
+		}
+	}
+	if found == 0 {
+		r.Unknown("C01.R14", "constraint-parser", "", "no function that reads constraint keywords from a node and returns the list of conjuncts was found")
+	}
+}
+
+// exactExpansion: a compact IRI prefix.name stands for the namespace bound to the prefix followed by the local name, and
+// nothing else: the data is matched on the full IRI, so text the expander adds on its own (a separator it thinks is
+// missing, a normalised case) makes a predicate miss its objects.  Decided on the values the expander returns without an
+// error (E-sym): they are concatenations of the looked-up namespace and of texts computed from the argument; no constant
+// text is put into the result.
+func exactExpansion(c *Ctx, rid string) {
+	r, p := c.R, c.P
+	r.Rule(rid, "a compact IRI expands to the namespace of its prefix followed by its local name: the expander adds no text of its own", 1)
+	pk := p.Pkg("internal/misc")
+	if pk == nil {
+		r.Unknown(rid, "package", "", "internal/misc not found")
+		return
+	}
+	n := 0
+	for _, f := range pk.Syntax {
+		for _, d := range f.Decls {
+			fd, ok := d.(*ast.FuncDecl)
+			if !ok || fd.Body == nil || fd.Type.Results == nil || len(fd.Type.Results.List) != 2 {
+				continue
+			}
+			type retv struct{ val, err *Sym }
+			var rets []retv
+			proto := &symWalker{Inline: func(*types.Func) bool { return false }}
+			proto.OnReturn = func(w *symWalker, ret *ast.ReturnStmt, results []*Sym) {
+				if w.depth == 0 && len(results) == 2 {
+					rets = append(rets, retv{results[0], results[1]})
+				}
+			}
+			p.SymWalk(pk, fd, proto, nil)
+			for _, rv := range rets {
+				if rv.err == nil || rv.err.K != symNil {
+					continue
+				}
+				// a value built from a lookup in the prefix table
+				lookup := false
+				rv.val.Walk(func(s *Sym) {
+					if s.K == symIndex && s.X != nil && s.X.K == symField && s.X.Name == "Context" {
+						lookup = true
+					}
+				})
+				if !lookup {
+					continue
+				}
+				n++
+				var added []string
+				var out func(s *Sym)
+				out = func(s *Sym) {
+					if s == nil {
+						return
+					}
+					switch s.K {
+					case symConcat, symChoice:
+						for _, part := range s.Parts {
+							out(part)
+						}
+					case symConst:
+						if t, ok := s.ConstString(); ok && t != "" {
+							added = append(added, strconv.Quote(t))
+						}
+					}
+				}
+				out(rv.val)
+				key := relOf(pk) + "." + recvName(fd) + "." + fd.Name.Name + "#expansion"
+				r.Check(len(added) == 0, rid, key, p.Pos(fd.Pos()), "namespace followed by the local name: "+rv.val.String(), "the expansion contains text of the expander's own ("+strings.Join(added, ", ")+"): "+rv.val.String()+"; the IRI the profile names is no longer the IRI the data is matched on")
+			}
+		}
+	}
+	if n == 0 {
+		r.Unknown(rid, "expander", "", "no function of internal/misc returns a text built from a lookup in the prefix table")
+	}
+}
+
+// c02ActionsKeepOperands (P13): the grammar actions that build a sequence or an alternative from `head (op operand)*`
+// keep every operand: the node's body is the head followed by one element per repetition of the tail, in order, with no
+// condition on the element (dropping a "repeated" alternative loses `p | p^`, whose two sides differ only in direction).
+// Decided on the values the action methods of the generated parser return (E-sym).
+func c02ActionsKeepOperands(c *Ctx) {
+	r, p := c.R, c.P
+	r.Rule("C02.P13", "the grammar actions for `/` and `|` keep the head and every operand of the tail, unconditionally and in order", 2)
+	pk := p.Pkg("internal/parser/path")
+	if pk == nil {
+		r.Unknown("C02.P13", "package", "", "internal/parser/path not found")
+		return
+	}
+	n := 0
+	for _, f := range pk.Syntax {
+		for _, d := range f.Decls {
+			fd, ok := d.(*ast.FuncDecl)
+			if !ok || fd.Body == nil || fd.Recv == nil || !strings.HasPrefix(fd.Name.Name, "on") || fd.Type.Params == nil {
+				continue
+			}
+			var head, tail types.Object
+			for _, fl := range fd.Type.Params.List {
+				for _, nm := range fl.Names {
+					switch nm.Name {
+					case "head":
+						head = pk.TypesInfo.Defs[nm]
+					case "tail":
+						tail = pk.TypesInfo.Defs[nm]
+					}
+				}
+			}
+			if head == nil || tail == nil {
+				continue
+			}
+			n++
+			var bodies []*Sym
+			proto := &symWalker{Inline: func(*types.Func) bool { return false }}
+			proto.OnReturn = func(w *symWalker, ret *ast.ReturnStmt, results []*Sym) {
+				if w.depth != 0 || len(results) == 0 {
+					return
+				}
+				results[0].Walk(func(s *Sym) {
+					if s.K == symStruct {
+						if b, ok := s.Fields["body"]; ok {
+							bodies = append(bodies, b)
+						}
+					}
+				})
+			}
+			p.SymWalk(pk, fd, proto, nil)
+			key := relOf(pk) + "." + recvName(fd) + "." + fd.Name.Name + "#body"
+			if len(bodies) == 0 {
+				r.Unknown("C02.P13", key, p.Pos(fd.Pos()), "the action takes head and tail but no returned node with a body was evaluated")
+				continue
+			}
+			good, got := true, ""
+			for _, b := range bodies {
+				got = b.String()
+				ok := b.K == symList && len(b.Parts) == 2 && b.Parts[0].K == symVar && b.Parts[0].Obj == head &&
+					b.Parts[1].K == symRepeat && b.Parts[1].X != nil && b.Parts[1].X.K == symVar && b.Parts[1].X.Obj == tail && len(b.Parts[1].Parts) == 1 && !dynamicPart(b.Parts[1].Parts[0])
+				if !ok {
+					good = false
+					break
+				}
+			}
+			r.Check(good, "C02.P13", key, p.Pos(fd.Pos()), "body = "+got, "the node's body is "+got+", expected [head, one element per repetition of tail]: an operand written in the path is missing from the tree (or is kept only under a condition)")
+		}
+	}
+	if n == 0 {
+		r.Unknown("C02.P13", "actions", "", "no grammar action taking head and tail was found in the generated parser")
+	}
+}
+
+// everyTypeIndexed: a node is an instance of every class listed in its @type, in whatever order they are listed.  The
+// class index (class IRI -> ids) is filled by the indexer in a loop over the nodes and, within it, over the types of one
+// node: every store into it inside those loops must happen for every element - not under a condition on the element, and
+// not after a break / continue / return that some element may have taken (E-sym: path conditions and leaves at the store).
+func everyTypeIndexed(c *Ctx, rid string) {
+	r, p := c.R, c.P
+	r.Rule(rid, "every class in a node's @type is entered in the class index, whatever the other classes and their order", 2)
+	pk := p.Pkg("internal/validator")
+	if pk == nil {
+		r.Unknown(rid, "package", "", "internal/validator not found")
+		return
+	}
+	isClassIndex := func(t types.Type) bool {
+		if t == nil {
+			return false
+		}
+		if pt, ok := t.Underlying().(*types.Pointer); ok {
+			t = pt.Elem()
+		}
+		m, ok := t.Underlying().(*types.Map)
+		if !ok {
+			return false
+		}
+		if b, ok := m.Key().Underlying().(*types.Basic); !ok || b.Kind() != types.String {
+			return false
+		}
+		sl, ok := m.Elem().Underlying().(*types.Slice)
+		if !ok {
+			return false
+		}
+		b, ok := sl.Elem().Underlying().(*types.Basic)
+		return ok && b.Kind() == types.String
+	}
+	n := 0
+	for _, f := range pk.Syntax {
+		for _, d := range f.Decls {
+			fd, ok := d.(*ast.FuncDecl)
+			if !ok || fd.Body == nil {
+				continue
+			}
+			site := 0
+			proto := &symWalker{Inline: func(*types.Func) bool { return false }}
+			proto.OnStore = func(w *symWalker, at ast.Node, target *Sym, key *Sym, val *Sym) {
+				if w.depth != 0 || key == nil || len(w.loopFrames) == 0 {
+					return
+				}
+				as, ok := at.(*ast.AssignStmt)
+				if !ok {
+					return
+				}
+				isIdx := false
+				for _, l := range as.Lhs {
+					if ix, ok := ast.Unparen(l).(*ast.IndexExpr); ok {
+						if tv, ok := w.info.Types[ix.X]; ok && isClassIndex(tv.Type) {
+							isIdx = true
+						}
+					}
+				}
+				if !isIdx {
+					return
+				}
+				n++
+				site++
+				var why []string
+				for _, l := range w.leftSoFar() {
+					why = append(why, "skipped after "+l)
+				}
+				base := w.loopFrames[0].base
+				if base > len(w.conds) {
+					base = len(w.conds)
+				}
+				for _, cnd := range w.conds[base:] {
+					t := cnd.String()
+					if strings.Contains(t, "typeis(") || strings.Contains(t, "result1(") && strings.Contains(t, ".(") {
+						continue // the kind of value @type holds (one text or a list)
+					}
+					why = append(why, "only when "+t)
+				}
+				okey := relOf(pk) + "." + fd.Name.Name + fmt.Sprintf("#class-index-store-%d", site)
+				r.Check(len(why) == 0, rid, okey, p.Pos(at.Pos()), "stored for every element of the loops around it", "the class of a node is entered in the index "+strings.Join(why, "; ")+": a node is then not found under one of its classes depending on its other classes or on their order, and validations targeting that class silently skip it")
+			}
+			p.SymWalk(pk, fd, proto, nil)
+		}
+	}
+	if n == 0 {
+		r.Unknown(rid, "class-index", "", "no store into a class index (map from class to ids) inside a loop was found in the indexer")
+	}
+}
+
+// c08EmbeddedCodeWhole (B8): the deny-list is applied by the compiler to the module the translator assembles, so it
+// protects only if the embedded Rego of the profile is in that module as the author wrote it.  The translator may
+// substitute its template variables ($result, $node, ...: strings.ReplaceAll with a constant "$name") and cut the text
+// into lines that are all kept; any other processing between the profile model and the generated text - a filter on
+// lines, a trim, a regular expression, a helper that rewrites - can change where Rego's tokens begin and end (a line that
+// looks like a comment inside a multi-line raw string is code), and with it which calls the compiler gets to see.
+// Decided on the values the translator's functions return (E-sym, helpers of the package interpreted): on the way from the
+// embedded-code fields of the profile model to the returned text there is nothing but those operations.
+func c08EmbeddedCodeWhole(c *Ctx) {
+	r, p := c.R, c.P
+	r.Rule("C08.B8", "embedded Rego is pasted whole: between the profile model and the generated text only template variables are substituted and lines are split, all kept", 2)
+	gen := p.Pkg("internal/generator")
+	if gen == nil {
+		r.Unknown("C08.B8", "package", "", "internal/generator not found")
+		return
+	}
+	isSource := func(s *Sym) bool {
+		if s == nil || s.K != symField || s.X == nil {
+			return false
+		}
+		t := s.RecvT
+		if t == nil {
+			t = s.X.Type
+		}
+		if t == nil && s.X.Obj != nil {
+			t = s.X.Obj.Type()
+		}
+		nt := namedOf(t)
+		if nt == nil {
+			return false
+		}
+		return (nt.Obj().Name() == "RegoRule" && s.Name == "Argument") || (nt.Obj().Name() == "Profile" && s.Name == "CustomRego")
+	}
+	contains := func(s *Sym) bool {
+		found := false
+		s.Walk(func(q *Sym) {
+			if isSource(q) {
+				found = true
+			}
+		})
+		return found
+	}
+	n := 0
+	for _, f := range gen.Syntax {
+		for _, d := range f.Decls {
+			fd, ok := d.(*ast.FuncDecl)
+			if !ok || fd.Body == nil {
+				continue
+			}
+			// judged: the functions that read the embedded-code fields themselves (helpers they hand the text to are interpreted)
+			reads := false
+			ast.Inspect(fd.Body, func(nd ast.Node) bool {
+				if sel, ok := nd.(*ast.SelectorExpr); ok && (sel.Sel.Name == "Argument" || sel.Sel.Name == "CustomRego") {
+					if tv, ok := gen.TypesInfo.Types[sel.X]; ok {
+						if nt := namedOf(tv.Type); nt != nil && (nt.Obj().Name() == "RegoRule" || nt.Obj().Name() == "Profile") {
+							reads = true
+						}
+					}
+				}
+				return true
+			})
+			if !reads {
+				continue
+			}
+			var rets []*Sym
+			proto := &symWalker{Inline: samePkgInline(gen)}
+			proto.OnReturn = func(w *symWalker, ret *ast.ReturnStmt, results []*Sym) {
+				if w.depth == 0 {
+					rets = append(rets, results...)
+				}
+			}
+			p.SymWalk(gen, fd, proto, nil)
+			var bad []string
+			uses := false
+			var visit func(s *Sym)
+			visit = func(s *Sym) {
+				if s == nil || !contains(s) {
+					return
+				}
+				if isSource(s) {
+					uses = true
+					return
+				}
+				switch s.K {
+				case symStruct:
+					for _, k := range s.Order {
+						visit(s.Fields[k])
+					}
+					return
+				case symList, symConcat, symChoice:
+					for _, part := range s.Parts {
+						visit(part)
+					}
+					return
+				case symRepeat:
+					visit(s.X)
+					for _, part := range s.Parts {
+						visit(part)
+					}
+					return
+				case symElem:
+					visit(s.X)
+					return
+				case symWhen:
+					if s.Fn == "" {
+						// a conditional part (if profile.CustomRego != nil): the condition is not about the lines of the text
+						for _, part := range s.Parts {
+							visit(part)
+						}
+						return
+					}
+					bad = append(bad, "kept only when "+s.Name)
+					return
+				case symCall:
+					switch {
+					case s.Fn == "strings.ReplaceAll" && len(s.Parts) == 3:
+						if old, ok := s.Parts[1].ConstString(); ok && strings.HasPrefix(old, "$") && !contains(s.Parts[1]) && !contains(s.Parts[2]) {
+							visit(s.Parts[0])
+							return
+						}
+					case s.Fn == "strings.Split" && len(s.Parts) == 2:
+						if sep, ok := s.Parts[1].ConstString(); ok && sep == "\n" {
+							visit(s.Parts[0])
+							return
+						}
+					case s.Fn == "strings.Join" && len(s.Parts) == 2:
+						visit(s.Parts[0])
+						return
+					case s.Fn == "strings.Contains" || s.Fn == "strings.HasPrefix" || s.Fn == "strings.HasSuffix" || s.Fn == "strings.Index" || s.Fn == "strings.Count" || s.Fn == "len":
+						return // a question about the text, not a text
+					case s.Fn == "deref" || s.Fn == "maybe":
+						for _, part := range s.Parts {
+							visit(part)
+						}
+						return
+					}
+					if normFmt(s.Fn) {
+						for _, part := range s.Parts {
+							visit(part)
+						}
+						return
+					}
+					bad = append(bad, "passed through "+s.Fn)
+					return
+				}
+				bad = append(bad, "reaches the text through "+s.String())
+			}
+			for _, v := range rets {
+				visit(v)
+			}
+			if !uses && len(bad) == 0 {
+				continue
+			}
+			n++
+			sort.Strings(bad)
+			key := relOf(gen) + "." + fd.Name.Name + "#embedded-code"
+			r.Check(len(bad) == 0, "C08.B8", key, p.Pos(fd.Pos()), "template variables substituted, lines split, everything kept", "the embedded Rego of the profile is "+strings.Join(bad, "; ")+" before it is pasted: the module the compiler checks for denied built-ins is no longer the code the profile contains")
+		}
+	}
+	if n == 0 {
+		r.Unknown("C08.B8", "paste-sites", "", "no function of the translator returns text built from the embedded-code fields of the profile model")
+	}
+}
+
+func normFmt(fn string) bool {
+	return fn == "fmt.Sprintf" || fn == "fmt.Sprint" || fn == "fmt.Sprintln"
+}
+
+// exactNumbers: line and column numbers travel as decoded JSON values from the data to the policy and from the policy's
+// result to the report.  Go's JSON decoder turns a number into a float64 unless it is told to keep the literal
+// (Decoder.UseNumber) or the target is a typed field: beyond 2^53 the number in the report is then not the recorded one.
+// Every JSON decoding in reach of the library's entry points into an untyped target (any, map[string]any, []any) must be
+// a Decoder on which UseNumber was called; json.Unmarshal into such a target has no way to keep numbers exact.
+func exactNumbers(c *Ctx, rid string) {
+	r, p := c.R, c.P
+	r.Rule(rid, "JSON is decoded into untyped values only by a decoder that keeps number literals (UseNumber): no number is routed through float64", 1)
+	untyped := func(t types.Type) bool {
+		if pt, ok := t.Underlying().(*types.Pointer); ok {
+			t = pt.Elem()
+		}
+		var has func(t types.Type, d int) bool
+		has = func(t types.Type, d int) bool {
+			if d > 4 {
+				return false
+			}
+			switch u := t.Underlying().(type) {
+			case *types.Interface:
+				return true
+			case *types.Map:
+				return has(u.Elem(), d+1)
+			case *types.Slice:
+				return has(u.Elem(), d+1)
+			case *types.Pointer:
+				return has(u.Elem(), d+1)
+			}
+			return false
+		}
+		return has(t, 0)
+	}
+	reach := p.Reach(libraryEntries(p)...)
+	n := 0
+	for _, fn := range sortedFuncs(reach) {
+		ord := ordinal{}
+		// decoders of this function on which UseNumber is called
+		exact := map[ssa.Value]bool{}
+		for _, b := range fn.Blocks {
+			for _, ins := range b.Instrs {
+				if ci, ok := ins.(ssa.CallInstruction); ok && funcFullName(ssaCalleeObj(ci)) == "(*encoding/json.Decoder).UseNumber" && len(ci.Common().Args) > 0 {
+					exact[ci.Common().Args[0]] = true
+				}
+			}
+		}
+		for _, b := range fn.Blocks {
+			for _, ins := range b.Instrs {
+				ci, ok := ins.(ssa.CallInstruction)
+				if !ok {
+					continue
+				}
+				name := funcFullName(ssaCalleeObj(ci))
+				args := ci.Common().Args
+				switch name {
+				case "encoding/json.Unmarshal":
+					if len(args) == 2 {
+						tgt := args[1]
+						if mi, ok := tgt.(*ssa.MakeInterface); ok {
+							tgt = mi.X
+						}
+						if untyped(tgt.Type()) {
+							n++
+							r.Bad(rid, ord.next(FuncKey(fn)+"#json.Unmarshal"), p.Pos(ins.Pos()), "json.Unmarshal into an untyped value turns every number into a float64: a line or column above 2^53 (and any large integer of the data) comes out changed")
+						}
+					}
+				case "(*encoding/json.Decoder).Decode":
+					if len(args) == 2 {
+						tgt := args[1]
+						if mi, ok := tgt.(*ssa.MakeInterface); ok {
+							tgt = mi.X
+						}
+						if !untyped(tgt.Type()) {
+							continue
+						}
+						n++
+						r.Check(exact[args[0]], rid, ord.next(FuncKey(fn)+"#Decoder.Decode"), p.Pos(ins.Pos()), "the decoder keeps number literals (UseNumber)", "the decoder decodes into an untyped value without UseNumber: every number becomes a float64, so a line or column above 2^53 comes out changed")
+					}
+				}
+			}
+		}
+	}
+	if n == 0 {
+		r.Unknown(rid, "decoders", "", "no JSON decoding into an untyped value was found in reach of the library's entry points")
+	}
+}
+
+// c13DefaultOnlyForEmpty (Q10): "the report shows the message as written".  The profile parser substitutes a default text
+// for a validation without message; that substitution may depend on nothing but the accessor's own answer - an error, or
+// the empty text.  A condition computed from the text (TrimSpace(message) == "", a length after stripping, a pattern)
+// replaces messages that were written.  Decided on the value handed to the constructor (E-sym): where it is a choice
+// between a constant and the accessor's text, the condition of the constant is built from `err != nil` and `text == ""`
+// alone.
+func c13DefaultOnlyForEmpty(c *Ctx) {
+	r, p := c.R, c.P
+	r.Rule("C13.Q10", "the default message replaces a missing or empty message only: the condition looks at the accessor's error and at the text itself, not at anything computed from the text", 1)
+	pk := p.Pkg("internal/parser/profile")
+	if pk == nil {
+		r.Unknown("C13.Q10", "package", "", "internal/parser/profile not found")
+		return
+	}
+	n := 0
+	seen := map[string]bool{}
+	for _, fd := range symRoots(pk) {
+		fd := fd
+		proto := &symWalker{Inline: samePkgInline(pk)}
+		proto.OnCall = func(w *symWalker, call *ast.CallExpr, fn types.Object, args []*Sym, result *Sym) {
+			f, _ := fn.(*types.Func)
+			if f == nil || f.Pkg() != pk.Types {
+				return
+			}
+			for _, a := range args {
+				if a == nil || a.K != symChoice || len(a.AltConds) != len(a.Parts) {
+					continue
+				}
+				hasText := false
+				for _, alt := range a.Parts {
+					if strings.Contains(alt.String(), `Get("message")`) {
+						hasText = true
+					}
+				}
+				if !hasText {
+					continue
+				}
+				for i, alt := range a.Parts {
+					if _, isConst := alt.ConstString(); !isConst {
+						continue
+					}
+					key := relOf(pk) + "." + fd.Name.Name + "#default-message"
+					if seen[key] {
+						continue
+					}
+					seen[key] = true
+					n++
+					var computed []string
+					a.AltConds[i].Walk(func(s *Sym) {
+						if s.K != symCall {
+							return
+						}
+						switch {
+						case s.Fn == "result0", s.Fn == "result1", s.Fn == "len":
+						case strings.Contains(s.Fn, "/internal/parser/yaml.Yaml)."): // the accessors that lead to the node and read it
+						default:
+							computed = append(computed, s.Fn)
+						}
+					})
+					sort.Strings(computed)
+					r.Check(len(computed) == 0, "C13.Q10", key, p.Pos(call.Pos()), "the default is used when "+shortFormat(a.AltConds[i].String()), "the default text replaces the message when "+shortFormat(a.AltConds[i].String())+": a condition computed from the text ("+strings.Join(computed, ", ")+") replaces messages that were written")
+				}
+			}
+		}
+		p.SymWalk(pk, fd, proto, nil)
+	}
+	if n == 0 {
+		r.Unknown("C13.Q10", "default-message", "", "no call that chooses between a constant text and the message read from the profile was found")
 	}
 }
